@@ -14,6 +14,7 @@ import FFVerif.Props.C09
 import FFVerif.Props.C16
 import FFVerif.Model.Sampler
 import FFVerif.Model.Seed
+import FFVerif.Model.Subset
 import FFVerif.Model.Miner
 import FFVerif.Props.C19
 import FFVerif.Props.C20
@@ -135,6 +136,15 @@ def handle (toks : List String) : Option String :=
     let ops ← (ops.splitOn ";").mapM parseOp
     let trace ← (trace.splitOn ";").mapM (fun t => if t == "-" then some [] else (t.splitOn ",").mapM parseEv)
     some (if Seed.conforms ops trace then "ok" else "fail:protocol")
+  | ["subset", nc, maxSub, g0, oracle] => do
+    let nc ← nc.toNat?
+    let ms ← maxSub.toNat?
+    let g0 ← parseList g0
+    let orc ← (if oracle == "-" then some [] else
+      (oracle.splitOn "|").mapM (fun lv => (lv.splitOn ";").mapM parseList))
+    let lv := Subset.run nc ms (ms + 1) g0 orc
+    some ("|".intercalate (lv.map (fun l =>
+      showList l.values ++ ":" ++ toString l.threshold ++ ":" ++ (match l.prob with | some k => toString k | none => "p0"))))
   | "c09lin" :: args => do
     let a ← parseFloats args
     if a.size = 5 then some s!"{(C09.linearResidual a[0]! a[1]! a[2]! a[3]! a[4]!).toBits.toNat}" else none
